@@ -183,33 +183,8 @@ def check(prog, rep):
     gm = S.methods.get("_get_matrix")
     if gv is None or gm is None:
         raise AnalysisError("Solution._get_vector / _get_matrix not found")
-    ok = False
-    for n in walk_local(gv.node, include_self=False):
-        if isinstance(n, ast.For) and isinstance(n.iter, ast.Call) and dotted(n.iter.func) == "enumerate" and isinstance(n.target, ast.Tuple):
-            i, v = [src(e) for e in n.target.elts]
-            for st in n.body:
-                if isinstance(st, ast.Assign) and isinstance(st.targets[0], ast.Subscript) and src(st.targets[0].slice) == i and f"[{v}.name]" in src(st.value):
-                    ok = src(n.iter.args[0]).endswith("._variables")
-    rep.pin("solution handles", "R07.4", "Solution._get_vector", ok, "result[i] is the value of the i-th variable of the handle" if ok else "the vector handle is not filled position-by-position from enumerate(vec._variables)", loc=gv.loc, detail="position")
-    for m_, filled in ((gv, "result"), (gm, "result")):
-        for r in [n for n in walk_local(m_.node) if isinstance(n, ast.Return)]:
-            okr = isinstance(r.value, ast.Name) and r.value.id == filled
-            rep.ob("R07.4", f"Solution.{m_.name}", okr, "every return hands out the array filled by name lookup" if okr else f"also returns `{src(r.value)[:60]}`, which is not looked up by variable name position by position (e.g. relies on the order of the values dict)", loc=f"{m_.module.rel}:{r.lineno}", detail=f"return:{'filled' if okr else src(r.value)[:30]}")
-    ok = False
-    for n in walk_local(gm.node, include_self=False):
-        if isinstance(n, ast.Assign) and isinstance(n.targets[0], ast.Subscript) and isinstance(n.targets[0].slice, ast.Tuple):
-            idx = [src(e) for e in n.targets[0].slice.elts]
-            if f"[{idx[0]}, {idx[1]}]" in src(n.value) or f"[{idx[0]}][{idx[1]}]" in src(n.value):
-                # loop ranges
-                loops = []
-                p = getattr(n, "_parent", None)
-                while p is not None and not isinstance(p, ast.FunctionDef):
-                    if isinstance(p, ast.For):
-                        loops.append((src(p.target), src(p.iter)))
-                    p = getattr(p, "_parent", None)
-                rng = dict(loops)
-                ok = rng.get(idx[0], "").endswith(".rows)") and rng.get(idx[1], "").endswith(".cols)")
-    rep.pin("solution handles", "R07.4", "Solution._get_matrix", ok, "result[i, j] is the value of mat[i, j], i over rows, j over cols" if ok else "the matrix handle is not filled as result[i, j] = values[mat[i, j].name] with i over rows and j over cols", loc=gm.loc, detail="position")
+    _handle_fill(rep, gv, "vector")
+    _handle_fill(rep, gm, "matrix")
     gi = S.methods.get("__getitem__")
     if gi is None:
         raise AnalysisError("Solution.__getitem__ not found")
@@ -247,6 +222,113 @@ def check(prog, rep):
         "sign-flipped, one variable list defining both the backend columns and the name->value dictionary, and the "
         "index maps of Solution handles."
     )
+
+
+def _resolve_local(e, assigns, depth=0):
+    """Follow single-assignment locals and constant subscripts of local tuples: shape[0] -> mat.rows."""
+    if depth > 4:
+        return e
+    if isinstance(e, ast.Name):
+        vals = [v for v in assigns.get(e.id, []) if isinstance(v, ast.AST)]
+        if len(vals) == 1 and not isinstance(vals[0], ast.AugAssign):
+            return _resolve_local(vals[0], assigns, depth + 1)
+    if isinstance(e, ast.Subscript) and isinstance(e.slice, ast.Constant) and isinstance(e.slice.value, int):
+        base = _resolve_local(e.value, assigns, depth + 1)
+        if isinstance(base, ast.Tuple) and 0 <= e.slice.value < len(base.elts):
+            return _resolve_local(base.elts[e.slice.value], assigns, depth + 1)
+    return e
+
+
+def _handle_fill(rep, m_, kind):
+    """R07.4: a Solution handle returns one array whose entry [i] (resp. [i, j]) is values[<i-th variable of the
+    handle>.name] for EVERY position: decided from the writes into the returned array and the loops that bind the
+    indices, with local aliases resolved (names of locals, enumerate vs. range, nested loops vs. product do not
+    matter)."""
+    construct = f"Solution.{m_.name}"
+    assigns = local_assignments(m_.node)
+    handle = m_.node.args.args[1].arg
+    rets = [n for n in walk_local(m_.node) if isinstance(n, ast.Return)]
+    names = {r.value.id for r in rets if isinstance(r.value, ast.Name)}
+    filled = None
+    for nm in names:
+        if any(isinstance(v, ast.Call) and dotted(v.func) in ("np.zeros", "np.empty", "np.full") for v in assigns.get(nm, [])):
+            filled = nm
+    if filled is None:
+        rep.undecided(f"{construct}: no returned array allocated by np.zeros/np.empty found")
+        return
+    for r in rets:
+        okr = isinstance(r.value, ast.Name) and r.value.id == filled
+        rep.ob("R07.4", construct, okr, "every return hands out the array filled by name lookup" if okr else f"also returns `{src(r.value)[:60]}`, which is not looked up by variable name position by position (e.g. relies on the order of the values dict)", loc=f"{m_.module.rel}:{r.lineno}", detail=f"return:{'filled' if okr else src(r.value)[:30]}")
+    writes = [n for n in walk_local(m_.node) if isinstance(n, ast.Assign) and isinstance(n.targets[0], ast.Subscript) and src(n.targets[0].value) == filled]
+    if not writes:
+        rep.undecided(f"{construct}: no write into the returned array `{filled}` found")
+        return
+
+    def is_values(e):
+        e = _resolve_local(e, assigns)
+        return src(e) == "self.values"
+
+    for w in writes:
+        idx = w.targets[0].slice
+        idxs = [src(e) for e in idx.elts] if isinstance(idx, ast.Tuple) else [src(idx)]
+        # loops binding the index names
+        bind = {}
+        p = getattr(w, "_parent", None)
+        while p is not None and p is not m_.node:
+            if isinstance(p, ast.For):
+                it = p.iter
+                tg = [src(e) for e in p.target.elts] if isinstance(p.target, ast.Tuple) else [src(p.target)]
+                if isinstance(it, ast.Call) and dotted(it.func) == "enumerate" and len(tg) == 2:
+                    bind[tg[0]] = ("enum-index", src(it.args[0]))
+                    bind[tg[1]] = ("enum-item", src(it.args[0]))
+                elif isinstance(it, ast.Call) and dotted(it.func) == "range" and len(it.args) == 1 and len(tg) == 1:
+                    bind[tg[0]] = ("range", src(_resolve_local(it.args[0], assigns)))
+                elif isinstance(it, ast.Call) and dotted(it.func) in ("product", "itertools.product") and all(isinstance(a, ast.Call) and dotted(a.func) == "range" and len(a.args) == 1 for a in it.args) and len(tg) == len(it.args):
+                    for nm, a in zip(tg, it.args):
+                        bind[nm] = ("range", src(_resolve_local(a.args[0], assigns)))
+                else:
+                    for nm in tg:
+                        bind[nm] = ("other", src(it))
+            p = getattr(p, "_parent", None)
+        v = w.value
+        look = v if isinstance(v, ast.Subscript) else (v.args[0] if isinstance(v, ast.Call) and dotted(v.func) == "float" and v.args and isinstance(v.args[0], ast.Subscript) else None)
+        why = None
+        if look is None or not is_values(look.value):
+            why = f"{filled}[{', '.join(idxs)}] is filled from `{src(v)[:50]}`, not from a lookup in self.values"
+        else:
+            key = look.slice
+            if not (isinstance(key, ast.Attribute) and key.attr == "name"):
+                why = f"the lookup key `{src(key)[:40]}` is not a variable's name"
+            else:
+                who = key.value
+                if kind == "vector":
+                    i = idxs[0] if len(idxs) == 1 else None
+                    b = bind.get(i)
+                    if b is None:
+                        why = f"index `{i}` is not bound by an enclosing loop"
+                    elif b[0] == "enum-index":
+                        seq = b[1]
+                        item = [nm for nm, bb in bind.items() if bb == ("enum-item", seq)]
+                        if not (seq == f"{handle}._variables" and item and src(who) == item[0]):
+                            why = f"{filled}[{i}] is the value of `{src(who)}`, which is not the {i}-th variable of the handle (enumerate({seq}))"
+                    elif b[0] == "range":
+                        if not (src(who) in (f"{handle}._variables[{i}]", f"{handle}[{i}]") and b[1] in (f"{handle}.size", f"len({handle}._variables)", f"len({handle})")):
+                            why = f"{filled}[{i}] = values[{src(who)}.name] for {i} in range({b[1]}) does not walk the handle position by position"
+                    else:
+                        why = f"index `{i}` ranges over `{b[1][:40]}`"
+                else:
+                    if len(idxs) != 2:
+                        why = "the matrix handle is not filled as result[i, j]"
+                    else:
+                        i, j = idxs
+                        bi, bj = bind.get(i), bind.get(j)
+                        elem_ok = src(who) in (f"{handle}[{i}, {j}]", f"{handle}._variables[{i}][{j}]", f"{handle}[{i}][{j}]")
+                        rng_ok = bi is not None and bj is not None and bi[0] == "range" and bj[0] == "range" and bi[1] == f"{handle}.rows" and bj[1] == f"{handle}.cols"
+                        if not elem_ok:
+                            why = f"{filled}[{i}, {j}] is the value of `{src(who)}`, not of {handle}[{i}, {j}]"
+                        elif not rng_ok:
+                            why = f"{i} ranges over {bi[1] if bi else '?'} and {j} over {bj[1] if bj else '?'}, not over the handle's rows and columns: part of the matrix stays 0"
+        rep.ob("R07.4", construct, why is None, ("result[i] is the value of the i-th variable of the handle" if kind == "vector" else "result[i, j] is the value of mat[i, j], i over rows, j over cols") if why is None else why, loc=f"{m_.module.rel}:{w.lineno}", detail="position")
 
 
 def _reported_term(prog, rep, fi, sc, ov, res, backend):
